@@ -16,7 +16,7 @@ MAXPRODUCT = 16
 
 
 class T(object):
-    __slots__ = ('op', 'args', 'sort', 'val', 'id', '_cases', '_lits', 'tag', '_neg')
+    __slots__ = ('op', 'args', 'sort', 'val', 'id', '_cases', '_lits', 'tag', '_neg', '_cm')
 
     def __repr__(self):
         return pp(self, 4)
@@ -44,6 +44,7 @@ def mk(op, args, sort, val=None):
         t._lits = None
         t.tag = None
         t._neg = None
+        t._cm = None
         _table[key] = t
     return t
 
@@ -111,18 +112,10 @@ def Not(a):
 
 
 def _lits(t):
-    """flattened conjunct set of an 'and' term (or the term itself)"""
+    """conjunct set of an 'and' term (or the term itself)"""
     if t.op == 'and':
-        if t._lits is None:
-            s = set()
-            for a in t.args:
-                s |= _lits(a)
-            t._lits = frozenset(s)
         return t._lits
     return frozenset((t,))
-
-
-MAXLITS = 400
 
 
 def _eqconst(l):
@@ -132,91 +125,196 @@ def _eqconst(l):
     return None
 
 
+def _mkand(litset):
+    """hash-consed conjunction of a frozenset of literals (consistent, >= 2).
+    tag = (tuple of disjunction conjuncts, {term: const} of the equality conjuncts)"""
+    key = ('and', litset)
+    t = _table.get(key)
+    if t is None:
+        t = T()
+        t.op = 'and'
+        t.args = tuple(litset)
+        t.sort = 'B'
+        t.val = None
+        t.id = _next[0]
+        _next[0] += 1
+        t._cases = None
+        t._lits = litset
+        ors = []
+        eqs = {}
+        for l in litset:
+            if l.op == 'or':
+                ors.append(l)
+            elif l.op == 'eq' and l.args[1].op == 'const' and l.args[0].op != 'const':
+                eqs[l.args[0]] = l.args[1].val
+        t.tag = (tuple(ors), eqs)
+        t._neg = None
+        t._cm = None
+        _table[key] = t
+    return t
+
+
+def _isneg(l, s):
+    """is the complement of literal l in set s"""
+    if l.op == 'not':
+        return l.args[0] in s
+    n = l._neg
+    return n is not None and n in s
+
+
+def _dead(d, alls, eqs):
+    """disjunct d contradicts the literal set"""
+    if d.op == 'and':
+        for dl in d._lits:
+            if _isneg(dl, alls):
+                return True
+            if eqs and dl.op == 'eq' and dl.args[1].op == 'const':
+                ov = eqs.get(dl.args[0])
+                if ov is not None and ov != dl.args[1].val:
+                    return True
+        return False
+    if _isneg(d, alls):
+        return True
+    if eqs and d.op == 'eq' and d.args[1].op == 'const':
+        ov = eqs.get(d.args[0])
+        if ov is not None and ov != d.args[1].val:
+            return True
+    return False
+
+
 def And(*xs):
-    lits = {}
+    args = []
     for x in xs:
         if x.op == 'const':
             if not x.val:
                 return FALSE
             continue
-        for l in _lits(x):
-            lits[l.id] = l
-    if not lits:
+        args.append(x)
+    if not args:
         return TRUE
-    if len(lits) == 1:
-        return next(iter(lits.values()))
-    ls = list(lits.values())
-    # complementary literals, conflicting equalities
-    eqs = {}
-    for l in ls:
+    if len(args) == 1:
+        return args[0]
+    base = args[0]
+    bl = len(base._lits) if base.op == 'and' else 1
+    for x in args[1:]:
+        n = len(x._lits) if x.op == 'and' else 1
+        if n > bl:
+            base, bl = x, n
+    lits = _lits(base)
+    new = set()
+    for x in args:
+        if x is base:
+            continue
+        if x.op == 'and':
+            for l in x._lits:
+                if l not in lits:
+                    new.add(l)
+        elif x not in lits:
+            new.add(x)
+    if not new:
+        return base
+    if base.op == 'and':
+        bors, beqs = base.tag
+    else:
+        bors = (base,) if base.op == 'or' else ()
+        e = _eqconst(base)
+        beqs = {e[0]: e[1]} if e is not None else {}
+    # complementary literals and conflicting equalities among (base, new)
+    neweq = None
+    newors = None
+    for l in new:
         if l.op == 'not':
-            if l.args[0].id in lits:
+            a = l.args[0]
+            if a in lits or a in new:
                 return FALSE
         else:
-            e = _eqconst(l)
-            if e is not None:
-                o = eqs.get(e[0].id)
-                if o is not None and o != e[1]:
-                    return FALSE
-                eqs[e[0].id] = e[1]
-    # unit-propagate into disjunctions, drop disequalities implied by an equality
-    changed = False
-    out = []
-    for l in ls:
-        if l.op == 'not' and eqs:
-            e = _eqconst(l.args[0])
-            if e is not None:
-                o = eqs.get(e[0].id)
-                if o is not None and o != e[1]:
-                    changed = True
-                    continue
-        if l.op == 'or':
+            n = l._neg
+            if n is not None and (n in lits or n in new):
+                return FALSE
+            if l.op == 'eq':
+                if l.args[1].op == 'const' and l.args[0].op != 'const':
+                    x, c = l.args[0], l.args[1].val
+                    o = beqs.get(x)
+                    if o is not None and o != c:
+                        return FALSE
+                    if neweq is None:
+                        neweq = {}
+                    o = neweq.get(x)
+                    if o is not None and o != c:
+                        return FALSE
+                    neweq[x] = c
+            elif l.op == 'or':
+                if newors is None:
+                    newors = []
+                newors.append(l)
+    alls = lits | new
+    drop = None
+    add = None
+    # new disjunctions against everything; old disjunctions (few) against the new literals only
+    if newors:
+        eqs = beqs
+        if neweq:
+            eqs = dict(beqs)
+            eqs.update(neweq)
+        for o in newors:
+            if len(o.args) > 48:
+                continue
             keep = []
             sat = False
-            for d in l.args:
-                if d.id in lits:
+            for d in o.args:
+                if d in alls:
                     sat = True
                     break
-                dead = False
-                for dl in _lits(d):
-                    if dl.op == 'not':
-                        if dl.args[0].id in lits:
-                            dead = True
-                            break
-                    else:
-                        if Not(dl).id in lits:
-                            dead = True
-                            break
-                        e = _eqconst(dl)
-                        if e is not None:
-                            o = eqs.get(e[0].id)
-                            if o is not None and o != e[1]:
-                                dead = True
-                                break
-                if not dead:
+                if not _dead(d, alls, eqs):
                     keep.append(d)
             if sat:
-                changed = True
-                continue
-            if len(keep) != len(l.args):
-                changed = True
+                drop = (drop or []) + [o]
+            elif len(keep) != len(o.args):
                 if not keep:
                     return FALSE
-                out.append(Or(*keep))
-            else:
-                out.append(l)
-        else:
-            out.append(l)
-    if changed:
-        return And(*out)
-    ls.sort(key=lambda t: t.id)
-    if len(ls) > MAXLITS:
-        # keep nested to bound the cost of flattening
-        half = len(ls) // 2
-        a = mk('and', tuple(ls[:half]), 'B')
-        b = mk('and', tuple(ls[half:]), 'B')
-        return mk('and', (a, b), 'B')
-    return mk('and', tuple(ls), 'B')
+                drop = (drop or []) + [o]
+                add = (add or []) + [Or(*keep)]
+    if bors and len(bors) <= 6 and len(new) <= 6:
+        for o in bors:
+            if len(o.args) > 48:
+                continue
+            keep = []
+            sat = False
+            for d in o.args:
+                if d in new:
+                    sat = True
+                    break
+                if not _dead(d, new, neweq):
+                    keep.append(d)
+            if sat:
+                drop = (drop or []) + [o]
+            elif len(keep) != len(o.args):
+                if not keep:
+                    return FALSE
+                drop = (drop or []) + [o]
+                add = (add or []) + [Or(*keep)]
+    if neweq:
+        # disequalities implied by a new equality
+        for l in alls:
+            if l.op == 'not' and l.args[0].op == 'eq':
+                a = l.args[0]
+                if a.args[1].op == 'const':
+                    ov = neweq.get(a.args[0])
+                    if ov is not None and ov != a.args[1].val:
+                        drop = (drop or []) + [l]
+    if drop or add:
+        rest = set(alls)
+        for d in drop or ():
+            rest.discard(d)
+        if not rest and not add:
+            return TRUE
+        if add:
+            r0 = _mkand(frozenset(rest)) if len(rest) > 1 else (next(iter(rest)) if rest else TRUE)
+            return And(r0, *add)
+        if len(rest) == 1:
+            return next(iter(rest))
+        return _mkand(frozenset(rest))
+    return _mkand(alls)
 
 
 def Or(*xs):
@@ -240,21 +338,39 @@ def Or(*xs):
             return TRUE
     ls = sorted(ds.values(), key=lambda t: t.id)
     # factor a common conjunct set:  (a&b)|(a&c) -> a&(b|c)
-    common = None
-    for d in ls:
-        s = _lits(d)
-        common = s if common is None else (common & s)
-        if not common:
-            break
-    if common:
-        rest = []
+    if len(ls) <= 12:
+        common = None
         for d in ls:
-            r = [l for l in _lits(d) if l not in common]
-            if not r:
-                return And(*common)
-            rest.append(And(*r))
-        return And(And(*common), Or(*rest))
+            s = _lits(d)
+            common = s if common is None else (common & s)
+            if not common:
+                break
+        if common:
+            rest = []
+            for d in ls:
+                r = [l for l in _lits(d) if l not in common]
+                if not r:
+                    return And(*common)
+                rest.append(And(*r))
+            return And(And(*common), Or(*rest))
     return mk('or', tuple(ls), 'B')
+
+
+def Named(t):
+    """opaque Boolean name for t: And/Or/Not treat it as an atom, the solver
+    gets the definition.  Used to cut path conditions at joins so that the
+    literal sets handled by And stay small."""
+    if t.op in ('const', 'var', 'name') or (t.op == 'not' and t.args[0].op in ('var', 'name')):
+        return t
+    return mk('name', (t,), 'B')
+
+
+def gsize(t):
+    if t.op == 'and':
+        return len(t._lits)
+    if t.op == 'or':
+        return len(t.args) + 1
+    return 1
 
 
 def Implies(a, b):
@@ -297,36 +413,21 @@ def Ite(c, a, b):
     return mk('ite', (c, a, b), a.sort)
 
 
-def casemap(t):
-    """{constant value: guard} if t is a constant or an ite DAG over constants
-    with at most MAXCASES distinct values, else None.  Memoised per node, so
-    shared sub-DAGs are visited once; guards are mutually exclusive."""
+def valueset(t):
+    """frozenset of the constants an ite DAG over constants can take (at most
+    MAXCASES), else None; cheap (no guards), memoised"""
     r = t._cases
     if r is not None:
         return r if r != 0 else None
     if t.op == 'const':
-        r = {t.val: TRUE}
+        r = frozenset((t.val,))
     elif t.op == 'ite':
-        a = casemap(t.args[1])
-        b = casemap(t.args[2]) if a is not None else None
+        a = valueset(t.args[1])
+        b = valueset(t.args[2]) if a is not None else None
         if a is None or b is None:
             r = None
         else:
-            c = t.args[0]
-            nc = Not(c)
-            r = {}
-            for v, g in a.items():
-                gg = And(c, g)
-                if gg is not FALSE:
-                    r[v] = gg
-            for v, g in b.items():
-                gg = And(nc, g)
-                if gg is FALSE:
-                    continue
-                if v in r:
-                    r[v] = Or(r[v], gg)
-                else:
-                    r[v] = gg
+            r = a | b
             if len(r) > MAXCASES:
                 r = None
     else:
@@ -335,8 +436,41 @@ def casemap(t):
     return r
 
 
+def casemap(t):
+    """{constant value: guard} for an ite DAG over constants (see valueset).
+    Memoised per node, so shared sub-DAGs are visited once; guards are
+    mutually exclusive."""
+    if valueset(t) is None:
+        return None
+    r = t._cm
+    if r is not None:
+        return r
+    if t.op == 'const':
+        r = {t.val: TRUE}
+    else:
+        a = casemap(t.args[1])
+        b = casemap(t.args[2])
+        c = t.args[0]
+        nc = Not(c)
+        r = {}
+        for v, g in a.items():
+            gg = And(c, g)
+            if gg is not FALSE:
+                r[v] = gg
+        for v, g in b.items():
+            gg = And(nc, g)
+            if gg is FALSE:
+                continue
+            if v in r:
+                r[v] = Or(r[v], gg)
+            else:
+                r[v] = gg
+    t._cm = r
+    return r
+
+
 def nleaves(t):
-    m = casemap(t)
+    m = valueset(t)
     return len(m) if m is not None else 0
 
 
@@ -885,7 +1019,7 @@ def body(t, nm=name):
         return '(fp.isNegative %s)' % nm(a[0])
     if op == 'bits2f':
         return '((_ to_fp 11 53) %s)' % nm(a[0])
-    if op == 'stage':
+    if op == 'stage' or op == 'name':
         return nm(a[0])
     raise ValueError('cannot print op ' + op)
 
@@ -1028,7 +1162,7 @@ def _eval1(t, vals, env, tables):
         return struct.unpack('<Q', struct.pack('<d', a[0]))[0]
     if op == 'bits2f':
         return struct.unpack('<d', struct.pack('<Q', a[0]))[0]
-    if op == 'stage':
+    if op == 'stage' or op == 'name':
         return a[0]
     if op == 'table':
         return tables(t.val, signed(a[0], 64)) & _mask(64)
